@@ -80,26 +80,26 @@ func arshalerPairs(p *Program) []arshalPair {
 
 // asymmetric legacy flags: read on one side only by design (reason each)
 var asymmetricFlags = map[string]string{
-	"FormatNilMapAsNull":           "marshal only",
-	"FormatNilSliceAsNull":         "marshal only",
-	"Deterministic":                "marshal only",
-	"OmitZeroStructFields":         "marshal only",
-	"OmitEmptyWithLegacySemantics": "marshal only",
-	"RejectUnknownMembers":         "unmarshal only",
-	"MergeWithLegacySemantics":     "unmarshal only",
-	"ParseBytesWithLooseRFC4648":   "unmarshal only",
-	"ParseTimeWithLooseRFC3339":    "unmarshal only",
-	"UnmarshalAnyWithRawNumber":    "unmarshal only",
-	"UnmarshalArrayFromAnyLength":  "unmarshal only",
-	"AnyWhitespace":                "encode only",
-	"AllowDuplicateNames":          "duplicate checks differ by direction: the struct/map marshalers rely on Go-level uniqueness",
-	"AllowInvalidUTF8":             "unique-key reasoning is per direction",
-	"CallMethodsWithLegacySemantics": "legacy nil-key / addressability handling exists on the marshal side only",
+	"FormatNilMapAsNull":              "marshal only",
+	"FormatNilSliceAsNull":            "marshal only",
+	"Deterministic":                   "marshal only",
+	"OmitZeroStructFields":            "marshal only",
+	"OmitEmptyWithLegacySemantics":    "marshal only",
+	"RejectUnknownMembers":            "unmarshal only",
+	"MergeWithLegacySemantics":        "unmarshal only",
+	"ParseBytesWithLooseRFC4648":      "unmarshal only",
+	"ParseTimeWithLooseRFC3339":       "unmarshal only",
+	"UnmarshalAnyWithRawNumber":       "unmarshal only",
+	"UnmarshalArrayFromAnyLength":     "unmarshal only",
+	"AnyWhitespace":                   "encode only",
+	"AllowDuplicateNames":             "duplicate checks differ by direction: the struct/map marshalers rely on Go-level uniqueness",
+	"AllowInvalidUTF8":                "unique-key reasoning is per direction",
+	"CallMethodsWithLegacySemantics":  "legacy nil-key / addressability handling exists on the marshal side only",
 	"ReportErrorsWithLegacySemantics": "error reporting policy, not representation",
-	"FormatTagSupported":           "error reporting for unsupported format tags",
-	"MatchCaseInsensitiveNames":    "name matching happens when unmarshaling only (and in the fallback duplicate check)",
-	"MatchCaseSensitiveDelimiter":  "name matching happens when unmarshaling only (and in the fallback duplicate check)",
-	"FormatDurationAsNano":         "checked",
+	"FormatTagSupported":              "error reporting for unsupported format tags",
+	"MatchCaseInsensitiveNames":       "name matching happens when unmarshaling only (and in the fallback duplicate check)",
+	"MatchCaseSensitiveDelimiter":     "name matching happens when unmarshaling only (and in the fallback duplicate check)",
+	"FormatDurationAsNano":            "checked",
 }
 
 // per-factory exceptions of FLAGSYM-1, one reason each (confirmed by reading the closures)
